@@ -8,6 +8,7 @@ import (
 	"fmt"
 	"os"
 	"path/filepath"
+	"reflect"
 	"runtime/debug"
 	"sort"
 	"strconv"
@@ -49,7 +50,11 @@ func main() {
 		variant = flag.String("variant", "", "battery: analyse one seeded variant (internal)")
 		battery = flag.Bool("battery", false, "run only the seeded-variant battery of the property and print the matrix")
 	)
+	all := flag.Bool("all", false, "development aid: load the tree once, run every rule of every property once, print the reports that are not open known findings (no evidence written)")
 	flag.Parse()
+	if *all {
+		os.Exit(runAllRules(*repo, *verif))
+	}
 	if *replay != "" {
 		os.Exit(doReplay(*replay, *repo, *verif))
 	}
@@ -316,4 +321,61 @@ func doReplay(path, repo, verif string) int {
 		return 2
 	}
 	return runProperty(p, "quick", repo, verif, true)
+}
+
+// runAllRules is the development aid behind -all (used by tools/refactor_all.sh): one load, every rule once.
+func runAllRules(repo, verif string) (code int) {
+	defer func() {
+		if e := recover(); e != nil {
+			fmt.Printf("CHECKER-ERROR analyser panic: %v\n%s\n", e, debug.Stack())
+			code = 2
+		}
+	}()
+	w, err := loadWorld(LoadOpts{Dir: repo})
+	if err != nil {
+		fmt.Printf("CHECKER-ERROR %v\n", err)
+		return 2
+	}
+	var ids []string
+	for id := range properties {
+		ids = append(ids, id)
+	}
+	sort.Strings(ids)
+	r := newReport()
+	seen := map[uintptr]bool{}
+	for _, id := range ids {
+		for _, f := range properties[id].Rules {
+			ptr := reflect.ValueOf(f).Pointer()
+			if seen[ptr] {
+				continue
+			}
+			seen[ptr] = true
+			f(w, r)
+		}
+	}
+	r.finish()
+	known, _ := readKnown(filepath.Join(verif, "known_findings.txt"))
+	open := map[string]bool{}
+	for _, k := range known {
+		if k.Kind == "open" {
+			open[k.Key] = true
+		}
+	}
+	n := 0
+	for _, ob := range r.Obs {
+		if ob.status == Discharged || (ob.status == Violated && open[ob.Key()]) {
+			continue
+		}
+		n++
+		st := "violated "
+		if ob.status == Undecided {
+			st = "undecided"
+		}
+		fmt.Printf("%s %s  %s  [%s] %s\n", st, ob.Rule, ob.Construct, ob.Pos, ob.Detail)
+	}
+	fmt.Printf("all-rules obligations=%d reports=%d rules=%d\n", len(r.Obs), n, len(seen))
+	if n > 0 {
+		return 1
+	}
+	return 0
 }
